@@ -215,7 +215,13 @@ def _pure(e, okattrs, oksubs=frozenset()):
                         for x in ast.walk(n.slice))):
                 return False
             continue
-        if isinstance(n, (ast.Call, ast.Lambda, ast.ListComp, ast.SetComp, ast.DictComp,
+        if isinstance(n, ast.Call):
+            # total functions of their arguments' identity / immutable state
+            if not (isinstance(n.func, ast.Name) and n.func.id in ("isinstance", "type", "id")
+                    and not n.keywords):
+                return False
+            continue
+        if isinstance(n, (ast.Lambda, ast.ListComp, ast.SetComp, ast.DictComp,
                           ast.GeneratorExp, ast.Yield, ast.YieldFrom, ast.Await,
                           ast.NamedExpr, ast.Starred, ast.List,
                           ast.Dict, ast.Set, ast.Tuple, ast.JoinedStr)):
@@ -300,7 +306,7 @@ def _propagate_pure_temps(fn):
         if isinstance(n.value, (ast.Constant, ast.Name)) and not isinstance(n.value, ast.Name):
             continue        # constants are flags / initial values, keep them
         if not isinstance(n.value, (ast.BoolOp, ast.Compare, ast.UnaryOp, ast.BinOp,
-                                    ast.IfExp, ast.Subscript)):
+                                    ast.IfExp, ast.Subscript, ast.Call)):
             continue
         if not _pure(n.value, set(), oksubs):
             continue
@@ -312,9 +318,9 @@ def _propagate_pure_temps(fn):
                     is_target = any(isinstance(lp, ast.For) and
                                     any(y is st for y in ast.walk(lp.target))
                                     for lp in encl)
-                    if not is_target and not (st.lineno < n.lineno and
-                                              not any(any(y is st for y in ast.walk(lp))
-                                                      for lp in encl)):
+                    # a binding earlier in the text is executed before this
+                    # definition in every iteration that reaches the uses
+                    if not is_target and not st.lineno < n.lineno:
                         ok = False
         if not ok:
             continue
